@@ -97,9 +97,14 @@ class Harness:
         w.agents = {}
         w.comps = []
         w.m2 = new_model(seed=2)      # the model the foreign agent was built for: never touched by this one's environment
+        # a2 belongs to a class that carries CLASS components (a home position and an X): they are the class's, the
+        # instance joins, leaves and is placed like any other agent
+        Homed = type('Homed', (Core.Agent,), {})
+        Homed.add_class_component(Envs.PositionComponent(Homed, w.model, 1, 1, 1))
+        Homed.add_class_component(X(Homed, w.model))
         for key, aid, types in self.agents + [('probe', 'probe', ('X',))]:
             owner = w.m2 if key in FOREIGN else w.model
-            a = Core.Agent(aid, owner)
+            a = (Homed if key == 'a2' else Core.Agent)(aid, owner)
             for T in types:
                 if T == 'PC':
                     if self.spec:
@@ -233,7 +238,7 @@ class Harness:
         if len(env) != len(exp) or [a for a in env] != exp:
             raise Violation('len / iteration changed after listings were modified or shuffled')
         res = self._resident_ids(w)
-        for aid in self.ids + ['probe']:
+        for aid in self.ids + ['probe', env.id]:      # the environment's own id names no agent in it
             want = w.agents[res[aid]] if aid in res else None
             got = env.get_agent(aid)
             if got is not want:
